@@ -98,6 +98,9 @@ def run_one(binary, scen, seed, outdir, extra_env=None):
     env.update({"VRT_SEED": str(seed), "VRT_TRACE": tr})
     if scen.get("kind", "fiber") == "fiber":
         env["VRT_SCEN"] = scen_text(scen)
+    else:
+        import thread_mc
+        env["VRT_SCEN"] = thread_mc.scen_text(scen)
     for k, v in scen.get("env", {}).items():
         env[k] = str(v)
     if extra_env:
@@ -207,8 +210,8 @@ def check_property(prop, tier, seed0):
     mods = sorted({load_scen(s)["module"] for s in cfgp["scenarios"][tier]} |
                   {load_scen(s)["module"] for s in cfgp.get("mc", {}).get(tier, [])})
     for m in mods:
-        if m in STANDALONE:
-            continue
+        if os.path.exists(os.path.join(ROOT, "spec", "thread", m + ".tla.in")):
+            continue  # standalone module: assembled by thread_mc.gen
         assemble.assemble(m)
 
     # (1) exhaustive model checking of the design
@@ -291,12 +294,15 @@ def check_property(prop, tier, seed0):
                     raise Infra(f"TLC trace validation failed for {sname}")
                 ev["coverage"]["transitions"] += st.get("generated", 0)
                 ev["coverage"]["states"] += st.get("distinct", 0)
-                for inv in st.get("violated", []):
-                    p = os.path.join(outdir, f"tracecheck_{sname}.txt")
-                    open(p, "w").write(out)
-                    # find which trace: TLC prints tk in the state
-                    j = (st.get("violated_trace") or 1) - 1
+                seen_v = set()
+                for inv, vt in st.get("violated", []):
+                    j = (vt or 1) - 1
                     seed, trp = meta[i + j]
+                    if (inv, seed) in seen_v:
+                        continue
+                    seen_v.add((inv, seed))
+                    p = os.path.join(outdir, f"tracecheck_{sname}_{seed}.txt")
+                    open(p, "w").write(out)
                     rp = write_replay(outdir, prop, scen, seed, f"invariant {inv} violated on a recorded execution", trp, tlc=p)
                     report(f"{sname} seed {seed}: invariant {inv} violated on the recorded execution", rp,
                            {"kind": "invariant", "scenario": sname, "invariant": inv})
